@@ -46,9 +46,10 @@ namespace GeographicLib {
     int
       xh = int(floor(x / tile_)),
       yh = int(floor(y / tile_));
+    // x / tile_ underflows to -0 for tiny negative x; then x - tile_ * xh < 0
     real
-      xf = x - tile_ * xh,
-      yf = y - tile_ * yh;
+      xf = fmax(real(0), x - tile_ * xh),
+      yf = fmax(real(0), y - tile_ * yh);
     xh += tileoffx_;
     yh += tileoffy_;
     int z = 0;
